@@ -273,6 +273,8 @@ class Q(Fraction):
         return self._op(o, lambda a, b: a * b, True)
 
     def __truediv__(self, o):
+        if isinstance(o, (float, _np.floating)) and math.isinf(o):
+            return Q(0)  # finite / inf (the `norm[norm == 0] = np.inf` idiom)
         return self._op(o, lambda a, b: a / b)
 
     def __rtruediv__(self, o):
@@ -984,6 +986,11 @@ def sym_sqrt(x):
             rn, rd = math.isqrt(fx.numerator), math.isqrt(fx.denominator)
             if rn * rn == fx.numerator and rd * rd == fx.denominator:
                 return Sym(z3.RealVal(Fraction(rn, rd)))
+    sq = _perfect_square(v)
+    if sq is not None:
+        # sqrt(c * t^2) = sqrt(c) |t| for a rational square c: exact, no fresh variable
+        c, t = sq
+        return Sym(z3.RealVal(c) * z3.If(t >= 0, t, -t))
     ex = cur() if _CUR is not None else None
     if SQRT_MODE["opaque"] or ex is None:
         if ex is not None and z3.is_rational_value(v) and v.as_fraction() >= 0:
@@ -994,6 +1001,40 @@ def sym_sqrt(x):
     r = z3.Real(ex.fresh_name("sqrt"))
     ex.assume(z3.And(r >= 0, r * r == e))
     return Sym(r)
+
+
+def _perfect_square(v):
+    """v (simplified) of the form c * t * t or c * t**2 with c the square of a rational: returns (sqrt(c), t)"""
+    c = Fraction(1)
+    t = v
+    if z3.is_app(t) and t.decl().kind() == z3.Z3_OP_MUL:
+        ch = t.children()
+        nums = [x for x in ch if z3.is_rational_value(x)]
+        rest = [x for x in ch if not z3.is_rational_value(x)]
+        for x in nums:
+            c *= Fraction(x.as_fraction())
+        if len(rest) == 2 and z3.eq(rest[0], rest[1]):
+            t = rest[0]
+        elif len(rest) == 1:
+            t = rest[0]
+            if not (z3.is_app(t) and t.decl().kind() == z3.Z3_OP_POWER):
+                return None
+        else:
+            return None
+    if z3.is_app(t) and t.decl().kind() == z3.Z3_OP_POWER:
+        b, e = t.children()
+        if z3.is_rational_value(e) and e.as_fraction() == 2:
+            t = b
+        else:
+            return None
+    elif t is v:
+        return None
+    if c <= 0:
+        return None
+    rn, rd = math.isqrt(c.numerator), math.isqrt(c.denominator)
+    if rn * rn != c.numerator or rd * rd != c.denominator:
+        return None
+    return Fraction(rn, rd), t
 
 
 def sym_exp(x):
